@@ -7,6 +7,7 @@ import (
 	"fmt"
 	"io"
 	"math/rand"
+	"runtime"
 	"sort"
 	"strings"
 	"sync"
@@ -647,7 +648,19 @@ func c18TamperConfig(ctx *core.Ctx, ci int, cfg c18TCfg, big chan struct{}, cwg 
 					keys = enc.Keys()
 				}
 				mutated := ft.Apply(append([]byte{}, data...))
+				var m0 runtime.MemStats
+				if ft.Big {
+					runtime.ReadMemStats(&m0)
+				}
 				got := c18Probe(mutated, keys, nrg, ncol, bloomVals)
+				if ft.Big {
+					var m1 runtime.MemStats
+					runtime.ReadMemStats(&m1)
+					if d := m1.TotalAlloc - m0.TotalAlloc; d >= 8<<20 {
+						ctx.Observe("length-prefix-drives-allocation", "readDecryptedEnvelopeFrom allocates 4+moduleLen bytes from the 4-byte length prefix before it reads or authenticates anything (file.go:1488): one flipped bit of the top prefix byte costs 16 MiB here, up to 4 GiB for other bits; the read then fails with an error",
+							map[string]any{"fault": ft.Desc, "bytes_allocated_during_probe": d, "config": cfg.String()})
+					}
+				}
 				ctx.Case("tamper|"+cfg.String()+"|"+ft.Desc, true)
 				ctx.Hist("fault", ft.Kind)
 				if ft.Kind == "swap" || ft.Kind == "crossfile" {
@@ -685,6 +698,8 @@ func c18TamperConfig(ctx *core.Ctx, ci int, cfg c18TCfg, big chan struct{}, cwg 
 						// Opening an unsigned footer is not refused (file.go:178: "Plain, unsigned footer —
 						// nothing to do"); what matters here is that no read returns data afterwards.
 						ctx.Hist("signature_stripped", o.Name+" succeeds")
+						ctx.Observe("unsigned-footer-accepted", "OpenFile with WithDecryption accepts a plaintext-footer file whose 28-byte signature was removed (file.go: \"Plain, unsigned footer — nothing to do\"); no read returns data afterwards, but a reader holding keys does not insist on a signed or encrypted footer (parquet-java refuses plaintext files by default when decryption is configured)",
+							map[string]any{"fault": ft.Desc, "probe": o.Name, "config": cfg.String()})
 					case ft.AllFail || (must["*"] && !strings.HasPrefix(o.Name, "lazy")) || (must["lazy*"] && strings.HasPrefix(o.Name, "lazy")) || must[o.Name]:
 						key := "tampered-module-accepted"
 						if ft.Kind == "swap" || ft.Kind == "crossfile" {
